@@ -85,7 +85,7 @@ def correspond(ctx):
         c.failures.append(Failure('correspondence', 'model files do not build: ' + out[-1200:]))
         return c
     n = ctx.n(420, 4000)
-    cases = _load_corpus() + list(cc.SEED_PROGS) + cc.operator_form_progs()
+    cases = _load_corpus() + list(cc.SEED_PROGS) + cc.operator_form_progs() + cc.sum_helper_progs()
     for k in range(n):
         r = ctx.rng.random()
         size = ctx.rng.randint(3, ctx.n(22, 60)) if r < 0.9 else ctx.rng.randint(40, ctx.n(60, 200))
@@ -128,6 +128,8 @@ def correspond(ctx):
         for i in p['ins']:
             if i[0] in ('bin', 'un') and i[-1] == 'func':
                 c.count('form:%s-func%s' % (i[0], '-number-first' if i[0] == 'bin' and i[2][0] == 'c' else ''))
+        for b_ in p.get('blocks', []):
+            c.count('sum-helper:%s:%s' % (b_[2]['form'], 'builds' if d['ok'] else 'fails'))
         for g in p.get('mce', []):
             c.count('mce-group:%s:%s' % (p['ins'][g[0]][0], 'builds' if d['ok'] else 'fails'))
         fs = _features(p, d)
@@ -175,7 +177,7 @@ def search(ctx, failures):
                               ['bin', op, ['v', 0, 0], ['v', 1, 0]], ['out', 'audio', ['c', '0'], [['v', 2, 0]]]]})
     for op in cc.UN_METHODS:
         cases.append({'ins': [['U', 'Saw', 'audio', [['c', '3']]], ['un', op, ['v', 0, 0]], ['out', 'audio', ['c', '0'], [['v', 1, 0]]]]})
-    cases += cc.operator_form_progs()
+    cases += cc.operator_form_progs() + cc.sum_helper_progs()
     for _ in range(ctx.n(300, 3000)):
         cases.append(cc.gen_prog(ctx.rng, ctx.rng.randint(3, 20), demand=False, invalid=0.0))
     res = ctx.impl('c01_search', {'cases': cases}, timeout=900)
